@@ -348,7 +348,7 @@ Proof.
       apply set_pln_sub_same.
     - unfold set_pln_sub, set_pln. now rewrite E. }
   split.
-  - cbn [CosmosModel.step]. unfold CosmosModel.updatePlan, CosmosRep.crep. cbn [fst snd].
+  - cbn [CosmosModel.step]. unfold CosmosModel.updatePlan, CosmosModel.updatePlan_stage, CosmosRep.crep. cbn [fst snd].
     rewrite (patch_agree s (sp_id q) (sp_id q) KPlan (patch_plan rs st (sp_submit q)) (cupd_plan_row (sp_id q) rs st (sp_submit q)) HI Hrow).
     + cbn [negb]. rewrite cupdatePlan_rows, Hsame, memb_ids_read, (spec_read_in_c s q HI Hq). simpl. f_equal. f_equal.
       rewrite map_map. apply map_ext. intros p. unfold set_pln. destruct (uid_eqb (sp_id p) (sp_id q)); reflexivity.
